@@ -29,35 +29,15 @@ harness! {
     }
 }
 
-// ---- rook, quick route: three obligations whose conjunction is the statement -----------------
-// (a) the lookup depends on the occupancy only through `occ & mask`   [structural, all 2^64]
-// (b) sliding depends on the occupancy only through `occ & mask`      [geometry lemma, all 2^64]
-// (c) rook == slide_ref on every subset of every mask                [exhaustive native evaluation]
-// hence rook(sq, occ) = rook(sq, occ&mask) = slide(sq, occ&mask) = slide(sq, occ).
-// (a) per square (constant square => the lookup region is one <= 4096-entry slice); the two index
-// computations are isomorphic circuits over equal inputs, so no multiplication reasoning is needed
-macro_rules! rook_masked_sq {
-    ($($name:ident = $sq:expr),* $(,)?) => { $(
-        harness! {
-            fn $name() {
-                let occ = Bitboard::from_raw(vk::any_u64());
-                let c = unsafe { Coord::from_index_unchecked($sq) };
-                let mask = MAGIC_ROOK[$sq].mask;
-                assert!(rook(c, occ) == rook(c, occ & mask));
-            }
-        }
-    )* };
-}
-rook_masked_sq! {
-    c15_rook_masked_sq00 = 0, c15_rook_masked_sq01 = 1, c15_rook_masked_sq02 = 2, c15_rook_masked_sq03 = 3, c15_rook_masked_sq04 = 4, c15_rook_masked_sq05 = 5, c15_rook_masked_sq06 = 6, c15_rook_masked_sq07 = 7,
-    c15_rook_masked_sq08 = 8, c15_rook_masked_sq09 = 9, c15_rook_masked_sq10 = 10, c15_rook_masked_sq11 = 11, c15_rook_masked_sq12 = 12, c15_rook_masked_sq13 = 13, c15_rook_masked_sq14 = 14, c15_rook_masked_sq15 = 15,
-    c15_rook_masked_sq16 = 16, c15_rook_masked_sq17 = 17, c15_rook_masked_sq18 = 18, c15_rook_masked_sq19 = 19, c15_rook_masked_sq20 = 20, c15_rook_masked_sq21 = 21, c15_rook_masked_sq22 = 22, c15_rook_masked_sq23 = 23,
-    c15_rook_masked_sq24 = 24, c15_rook_masked_sq25 = 25, c15_rook_masked_sq26 = 26, c15_rook_masked_sq27 = 27, c15_rook_masked_sq28 = 28, c15_rook_masked_sq29 = 29, c15_rook_masked_sq30 = 30, c15_rook_masked_sq31 = 31,
-    c15_rook_masked_sq32 = 32, c15_rook_masked_sq33 = 33, c15_rook_masked_sq34 = 34, c15_rook_masked_sq35 = 35, c15_rook_masked_sq36 = 36, c15_rook_masked_sq37 = 37, c15_rook_masked_sq38 = 38, c15_rook_masked_sq39 = 39,
-    c15_rook_masked_sq40 = 40, c15_rook_masked_sq41 = 41, c15_rook_masked_sq42 = 42, c15_rook_masked_sq43 = 43, c15_rook_masked_sq44 = 44, c15_rook_masked_sq45 = 45, c15_rook_masked_sq46 = 46, c15_rook_masked_sq47 = 47,
-    c15_rook_masked_sq48 = 48, c15_rook_masked_sq49 = 49, c15_rook_masked_sq50 = 50, c15_rook_masked_sq51 = 51, c15_rook_masked_sq52 = 52, c15_rook_masked_sq53 = 53, c15_rook_masked_sq54 = 54, c15_rook_masked_sq55 = 55,
-    c15_rook_masked_sq56 = 56, c15_rook_masked_sq57 = 57, c15_rook_masked_sq58 = 58, c15_rook_masked_sq59 = 59, c15_rook_masked_sq60 = 60, c15_rook_masked_sq61 = 61, c15_rook_masked_sq62 = 62, c15_rook_masked_sq63 = 63,
-}
+// ---- rook -------------------------------------------------------------------------------------
+// thorough tier: the direct proof per square, all 2^64 occupancies (c15_rook_sqNN below; ~4 min
+// of kissat per square).
+// quick tier: (b) sliding depends on the occupancy only through `occ & mask` [lemma, all 2^64],
+//             (c) rook == slide_ref on every subset of every mask [exhaustive native evaluation],
+//             (d) every index the lookup can compute stays inside the table [native, per square].
+// What quick does NOT discharge is (a) "the lookup reads the occupancy only through occ & mask";
+// it is listed as assumption A-ROOK-MASK in the quick evidence and is implied by the thorough
+// obligations.  (Measured: (a) as a CBMC query costs as much as the direct proof.)
 harness! {
     #[kani::unwind(9)]
     fn c15_rook_relevant_occupancy_lemma() {
@@ -96,6 +76,28 @@ fn n15_rook_enumerate_all_mask_subsets() {
         }
     }
     assert!(n == 102400);
+    eprintln!("EVALUATIONS: {}", n);
+}
+#[cfg(not(kani))]
+#[test]
+fn n15_lookup_regions_in_bounds() {
+    // (d) idx = (x * magic) >> shift < 2^(64-shift) for every x; the region [lookup, lookup + 2^(64-shift))
+    // must lie inside the lookup table
+    let mut n = 0u64;
+    for i in 0..64usize {
+        for (name, e, shift, base, len) in [
+            ("rook", &MAGIC_ROOK[i], MAGIC_SHIFTS_ROOK[i], MAGIC_LOOKUP_ROOK.as_ptr(), MAGIC_LOOKUP_ROOK.len()),
+            ("bishop", &MAGIC_BISHOP[i], MAGIC_SHIFTS_BISHOP[i], MAGIC_LOOKUP_BISHOP.as_ptr(), MAGIC_LOOKUP_BISHOP.len()),
+        ] {
+            let off = unsafe { e.lookup.offset_from(base) };
+            let size = 1u64 << (64 - shift);
+            if !(1 <= shift && shift < 64 && off >= 0 && (off as u64) + size <= len as u64 && e.mask.len() as u64 == 64 - shift) {
+                eprintln!("REPLAY-INPUT: attack::{} square index {} lookup offset {} shift {} table length {}", name, i, off, shift, len);
+                panic!("lookup region out of bounds");
+            }
+            n += 1;
+        }
+    }
     eprintln!("EVALUATIONS: {}", n);
 }
 #[cfg(not(kani))]
